@@ -7,13 +7,13 @@ rm -rf /tmp/vg; mkdir -p /tmp/vg
 go1.26.8 run ./verifgen -out /tmp/vg
 go1.26.8 test -c -overlay /tmp/vg/overlay.json -o /tmp/vg/worker.test ./worker
 cd /tmp/vg
-VERIF_PROP=$1 VERIF_COUNT=${2:-300} VERIF_SEED_BASE=${3:-1} VERIF_OUT=/tmp/vg/out.jsonl ./worker.test -test.run '^TestWorker$' -test.timeout 0 | tail -3
+VERIF_EMIT_CASES=1 VERIF_PROP=$1 VERIF_COUNT=${2:-300} VERIF_SEED_BASE=${3:-1} VERIF_OUT=/tmp/vg/out.jsonl ./worker.test -test.run '^TestWorker$' -test.timeout 0 | tail -3
 python3 - <<'PY'
 import json,collections
 c=collections.Counter(); steps=0; n=0; sw=0; first={}
 for l in open('/tmp/vg/out.jsonl'):
     d=json.loads(l)
-    if d['kind']=='done': print(d); continue
+    if d["kind"] in ("done","agg"): print(d["kind"], d.get("runs")); continue
     r=d['res']; n+=1; steps+=r['steps']; sw+=r['switches']
     k=r.get('violation','')+'|'+r.get('signature','')[:100]+'|'+r.get('inconclusive','')+'|'+r.get('outcome','')
     c[k]+=1
